@@ -12,6 +12,7 @@ import NutsProofs.Lemmas.C07LiveN
 import NutsProofs.Lemmas.C07Example
 import NutsProofs.Lemmas.C07LiveO
 import NutsProofs.Lemmas.C07IbltB
+import NutsProofs.Lemmas.C07Disp
 open Nuts.Proto Nuts Nuts.Proto.L Nuts.Proto.Live Nuts.C07.Ex
 
 namespace Nuts.C07.Props
@@ -625,5 +626,124 @@ theorem fact_iblt_bucket_ops :
     Facts.C07.ibltOps = ["bucket.insert: b.count++; b.update(key, hash);", "bucket.delete: b.count--; b.update(key, hash);", "bucket.subtract: b.count -= o.count; b.update(o.keySum, o.hashSum);", "bucket.update: b.keySum = b.keySum.Xor(key); b.hashSum ^= hash;", "bucket.isEmpty: return b.equals(new(bucket));", "Iblt.Insert: keyHash := i.hashKey(ref); for _, h := range i.bucketIndices(keyHash) { i.buckets[h].insert(ref, keyHash) };", "Iblt.Delete: keyHash := i.hashKey(key); for _, h := range i.bucketIndices(keyHash) { i.buckets[h].delete(key, keyHash) };", "Iblt.Subtract: o, err := i.validate(other); if err != nil { return err }; for idx := range i.buckets { i.buckets[idx].subtract(&o.buckets[idx]) }; return nil;", "Iblt.Empty: for idx := range i.buckets { if !i.buckets[idx].isEmpty() { return false } }; return true;", "Iblt.hashKey: return murmur3.SeedSum64(i.hc, key.Slice());"] := by decide
 
 end IbltProps
+
+/-! ### Deepening round 2: the dispatcher (`Handle` / `handle` / `handleASync` / the TransactionList channel) inside the model -/
+
+namespace DispProps
+open Nuts.Proto.Disp
+
+/-- the routing of the real code: the model's lookup in the REGENERATED switch table -/
+def factRoute : Msg → Route := routeOf Facts.C07.dispatchTable
+
+/-- the parameters of the real code -/
+def factParams (cfg : Cfg) (env : Env) : Params :=
+  { cfg := cfg, env := env, rt := factRoute, cap := Facts.C07.outboxHardLimit, allowed := Facts.C07.allowedErrors }
+
+/-- regenerated switch of `protocol.handle` = the routing the abstract layer assumes: TransactionLists go through the
+    channel, an envelope of no known type is refused, every other type gets its own goroutine -/
+theorem fact_dispatch_table_routes (m : Msg) :
+    factRoute m = (match m with | .txList .. => Route.listChan | .unsupported => Route.unsupported | _ => Route.async) := by
+  cases m <;> simp only [factRoute, routeOf, envName] <;> decide
+
+/-- regenerated: the statements the dispatcher model mirrors — `Handle`'s error classification, the non-blocking send of the
+    TransactionList clause, the fall-through of the switch, `handleASync` (goroutine, returns nil), the capacity of the list
+    channel and the loop of `transactionListHandler.start` -/
+theorem fact_dispatcher_shape :
+    Facts.C07.allowedErrors = ["errInternalError", "errMessageNotSupported"] ∧
+    Facts.C07.handleErrShape = ["if:err != nil && err != context.Canceled", "range:allowedErrors", "if:err == allowedError",
+      "return:err", "return:errInternalError", "return:nil"] ∧
+    Facts.C07.listChanClause = ["select", "comm:p.listHandler.ch <- pe", "default", "return:nil"] ∧
+    Facts.C07.handleFallthrough = "return errMessageNotSupported" ∧
+    Facts.C07.handleASyncShape = ["go", "funclit", "if:err != nil", "return:nil"] ∧
+    Facts.C07.listChanMake = "chan connectionEnvelope,grpc.OutboxHardLimit" ∧ 0 < Facts.C07.outboxHardLimit ∧
+    Facts.C07.listHandlerStartShape = ["for", "select", "comm:<-tlh.ctx.Done()", "return:", "comm:pe := <-tlh.ch", "if:err != nil"] := by
+  decide
+
+/-- **The dispatcher refines the atomic-handler layer.** For EVERY schedule of arrivals, list-handler iterations and
+    goroutine runs (any interleaving, any order of the handleASync goroutines): the node state is the result of running the
+    atomic handlers one after the other over the invocation trace; the TransactionLists handled so far followed by the ones
+    still on the channel form a SUBLIST of the ones that were waiting plus the ones that arrived — in-order, at most once,
+    none invented — and the channel never exceeds its capacity. -/
+theorem dispatcher_refines_handler_sequence (P : Params) (evs : List Ev) (d : DNode)
+    (hw : WaitOK P.rt d) (hc : d.chan.length ≤ P.cap) :
+    (run P d evs).1.node = foldHandle P.cfg P.env d.node (run P d evs).2 ∧
+    List.Sublist (((run P d evs).2.filter (isList P.rt)) ++ (run P d evs).1.chan) (d.chan ++ (arrivals evs).filter (isList P.rt)) ∧
+    (run P d evs).1.chan.length ≤ P.cap :=
+  ⟨run_node P evs d, run_lists_fifo P evs d hw, run_chan_le P evs d hc⟩
+
+/-- **Safety under any goroutine schedule inside a node**: the DAG only grows (old DAG = suffix), stays valid, and every
+    added transaction has a good verdict and was carried by a message whose handler ran. Closes the "handlers are called
+    directly, the dispatcher is not modelled" gap of `safety_any_schedule` for the node-internal scheduling. -/
+theorem dispatcher_safety_any_goroutine_schedule (P : Params) (evs : List Ev) (d : DNode) (h : DagOK d.node.dag) :
+    DagOK (run P d evs).1.node.dag ∧
+    ∃ added, (run P d evs).1.node.dag = added ++ d.node.dag ∧
+      ∀ t ∈ added, t.sigOK = true ∧ ∃ x ∈ (run P d evs).2, t ∈ msgTxs x.2 := by
+  rw [run_node]
+  exact foldHandle_dag P.cfg P.env _ d.node h
+
+/-- **A full channel is message loss and nothing else**: a TransactionList arriving at a full channel leaves the node, the
+    channel and the goroutines untouched and `Handle` returns nil — the rest of the schedule runs as if it never arrived
+    (the abstract network's loss step). -/
+theorem full_channel_drop_is_loss (P : Params) (d : DNode) (p : Peer) (m : Msg) (evs : List Ev)
+    (hr : P.rt m = .listChan) (hfull : P.cap ≤ d.chan.length) :
+    run P d (.arrive p m :: evs) = run P d evs ∧ (Handle P.allowed P.rt P.cap d p m).2 = none := by
+  have hn : ¬ d.chan.length < P.cap := by omega
+  constructor
+  · simp [run, stepEv, Handle, dispatchMsg, hr, hn]
+  · simp [Handle, dispatchMsg, hr, hn, handleRet]
+
+/-- **`Handle` with the regenerated `allowedErrors`**: whatever error `handle` returns, the peer sees nil, errInternalError
+    or errMessageNotSupported; for the real `handle` the result is errMessageNotSupported exactly for an envelope of no
+    known type, and such an envelope changes nothing. -/
+theorem handle_error_classification (rt : Msg → Route) (cap : Nat) :
+    (∀ e, handleRet Facts.C07.allowedErrors e = none ∨ handleRet Facts.C07.allowedErrors e = some .internal ∨
+      handleRet Facts.C07.allowedErrors e = some .notSupported) ∧
+    (∀ d p m, (Handle Facts.C07.allowedErrors rt cap d p m).2 = (if rt m = .unsupported then some .notSupported else none)) ∧
+    (∀ d p m, rt m = .unsupported → (Handle Facts.C07.allowedErrors rt cap d p m).1 = d) := by
+  have hns : handleRet Facts.C07.allowedErrors (some .notSupported) = some .notSupported := by decide
+  refine ⟨?_, ?_, ?_⟩
+  · intro e
+    cases e with
+    | none => left; rfl
+    | some e =>
+      cases e with
+      | canceled => left; rfl
+      | internal => right; left; decide
+      | notSupported => right; right; exact hns
+      | other w => right; left; simp [handleRet, HErr.allowedBy]
+  · intro d p m
+    simp only [Handle, dispatchMsg]
+    split <;> rename_i hr
+    · simp [hr, hns]
+    · simp only [hr]; split <;> simp [handleRet]
+    · simp [hr, handleRet]
+  · intro d p m hr
+    simp [Handle, dispatchMsg, hr]
+
+/-- once the arrivals stop, `length chan` iterations of the list handler handle exactly the waiting lists, in channel order,
+    and leave the channel empty (no list waits forever while the handler goroutine runs) -/
+theorem list_handler_drains_in_order (P : Params) : ∀ (c : List (Peer × Msg)) (d : DNode), d.chan = c →
+    (run P d (List.replicate c.length .listRun)).2 = c ∧ (run P d (List.replicate c.length .listRun)).1.chan = [] := by
+  intro c
+  induction c with
+  | nil => intro d h; simp [run, h]
+  | cons x r ih =>
+    intro d h
+    simp only [List.length_cons, List.replicate_succ, run, stepEv, h]
+    obtain ⟨h1, h2⟩ := ih { d with node := (handle P.cfg P.env d.node x.1 x.2).node, chan := r } rfl
+    exact ⟨by simp [h1], h2⟩
+
+/-- non-vacuity: capacity 2, three TransactionLists arrive before the handler runs — the third is dropped; the hypotheses of
+    the refinement theorem hold for a fresh dispatcher; the DAG hypothesis holds for the example node -/
+example : (run { factParams exCfg idealEnv with cap := 2 } { node := exA }
+    [.arrive { key := 1 } (.txList (0, 0) 1 1 []), .arrive { key := 1 } (.txList (0, 1) 1 1 []),
+     .arrive { key := 1 } (.txList (0, 2) 1 1 []), .arrive { key := 1 } .unsupported]).1.chan.length = 2 := by decide
+example : WaitOK factRoute { node := exA } ∧ ({ node := exA } : DNode).chan.length ≤ Facts.C07.outboxHardLimit :=
+  ⟨⟨by simp, by simp⟩, by simp⟩
+example : DagOK ({ node := exA } : DNode).node.dag := exA_ok
+example : factRoute (.txList (0, 0) 1 1 []) = .listChan ∧ factRoute .unsupported = .unsupported := by
+  constructor <;> rw [fact_dispatch_table_routes]
+
+end DispProps
 
 end Nuts.C07.Props
